@@ -243,11 +243,11 @@ where
     /// ```
     #[inline]
     pub fn rank_range(&self, range: Range<usize>, val: usize) -> Option<usize> {
-        if range.is_empty() {
-            return Some(0);
-        }
         if self.len() < range.end {
             return None;
+        }
+        if range.is_empty() {
+            return Some(0);
         }
 
         let mut start_pos = range.start;
